@@ -236,6 +236,8 @@ def run(ctx):
         info = extract_registry.regenerate(extra_pairs=[(strip(shadow[0]), strip(shadow[1]))])
         ctx.note("translator", {k: v for k, v in info.items() if k != "ambient"})
         ctx.note("ambient_uses", info["ambient"])
+        if info["leaks"]:
+            ctx.tie_broken("registry-classification", info["leaks"])     # keeps the reason in the replay file
         ok = ctx.lean(MODULES, THEOREMS, extra_targets=("drv_registry", "drv_lines"))
         ctx.cov["trusted_base"] = [
             "Lean 4.33.0 kernel; axioms within {propext, Classical.choice, Quot.sound}",
